@@ -629,10 +629,11 @@ def _impl_prog(case):
     pykind = case.get('pykind') or 'genfunc'
     pyopt = case.get('pyopt') or {}
     vals = (yp.atom('a'), yp.atom('c'))
-    cstat = {'live': 0, 'made': 0, 'closecalls': 0}
+    cstat = {'live': 0, 'made': 0, 'closecalls': 0, 'calls': 0}
     registry = []           # the application's own references to its cursors
     def rows():
         state['calls'] += 1
+        cstat['calls'] += 1
         if state['j'] is not None and state['calls'] == state['j']:
             raise _Boom('pyp')
         yield from vals
@@ -705,6 +706,7 @@ def _impl_prog(case):
     if pykind == 'genfunc':
         def pyp(x):
             state['calls'] += 1
+            cstat['calls'] += 1
             if state['j'] is not None and state['calls'] == state['j']:
                 raise _Boom('pyp')
             for v in vals:
@@ -954,7 +956,7 @@ def _impl_prog(case):
     return {'ref': ref, 'refend': refend, 'refnb': refnb, 'refvals': refvals, 'steps': refsteps, 'bad0': bad0, 'k': k, 'spec': spec, 'spec1': spec1, 'heldbad': heldbad[0],
             'run1': [a1, e1], 'bad1': bad1, 'snap_restored': snap1 == snap0,
             'run2': [a2, e2], 'bad2': bad2, 'run3': [a3, e3], 'bad3': bad3,
-            'leaked': leaked, 'maxbound': max(refmb, mb1), 'nworld': len(W), 'curbad': curbad, 'curmade': cstat['made'], 'closecalls': cstat['closecalls']}
+            'leaked': leaked, 'maxbound': max(refmb, mb1), 'nworld': len(W), 'curbad': curbad, 'curmade': cstat['made'], 'closecalls': cstat['closecalls'], 'pycalls': cstat['calls']}
 
 def _canon(ts, nv):
     m = {}
@@ -981,7 +983,7 @@ def gen(rng, tier):
     # queries ended by RecursionError at EVERY depth (c03_sweep.py); drawn last, so the cases above are those of earlier rounds
     cases += [{'kind': 'sweep', 'spec': c03_sweep.gen_spec(rng, tier)} for _ in range(90 if tier == 'quick' else 1500)]
     # round 4: programs that call the user predicate often, with the predicate of every iterable kind (drawn last)
-    cases += [_gen_prog_case(rng, focus=True) for _ in range(160 if tier == 'quick' else 3000)]
+    cases += [_gen_prog_case(rng, focus=True) for _ in range(240 if tier == 'quick' else 3000)]
     return cases
 
 def builtin_corpus():
@@ -1356,8 +1358,9 @@ def distribution(cases, obs):
             continue
         d[c['kind']] += 1
         if c['kind'] == 'prog' and isinstance(o, dict) and o.get('curmade') is not None:
-            if o['curmade'] or (c.get('pykind') or 'genfunc') != 'genfunc':
-                inc(d.setdefault('prog_user_predicate_kind (programs that called it)', {}), c.get('pykind') if (o['curmade'] or o.get('pycalls')) else 'not called')
+            inc(d.setdefault('prog_user_predicate_kind (programs that called it)', {}), (c.get('pykind') or 'genfunc') if (o['curmade'] or o.get('pycalls')) else 'not called')
+            if _has_goal(c, 'pyt'):
+                inc(d.setdefault('prog_second_user_predicate_returns', {}), (c.get('pyopt') or {}).get('pyt'))
             if o['curmade']:
                 inc(d.setdefault('prog_iterator_objects_made', {}), min(o['curmade'], 20))
                 inc(d.setdefault('prog_close_calls_that_reached_an_iterator_object', {}), min(o['closecalls'], 20))
